@@ -1890,6 +1890,10 @@ func c11Facts(repo string, w *strings.Builder) error {
 	if err != nil {
 		return err
 	}
+	hs, err := c11HandlerShape(repo)
+	if err != nil {
+		return err
+	}
 
 	// output
 	fmt.Fprintf(w, "/- GENERATED by tools/extract/goext (mode c11) from cypher/models/cypher/{model,copy}.go and cypher/models/walk/walk_{cypher,pgsql}.go — do not edit. -/\n")
@@ -1941,6 +1945,8 @@ func c11Facts(repo string, w *strings.Builder) error {
 	fmt.Fprintf(w, "def pgsqlBranches : List (String × List String) := [%s]\n", strings.Join(pg, ", "))
 	fmt.Fprintf(w, "/-- walk.Generic: per callback call site (source order) whether the error / done checks follow it, and for every Exit site whether\n    the consume flag is read-and-cleared (`visitor.WasConsumed()`) after it and before the cursor is popped -/\n")
 	fmt.Fprintf(w, "def genericFacts : List (String × Bool) := %s\n", strings.ReplaceAll(strings.ReplaceAll(c11LeanPairs(gs.facts), "\"true\"", "true"), "\"false\"", "false"))
+	fmt.Fprintf(w, "/-- the visitor handler's methods: SetError acts only on a non-nil error (and then records it and sets done), SetDone / Consume set\n    one field, WasConsumed reads and clears the flag, Done / Error are field reads -/\n")
+	fmt.Fprintf(w, "def handlerFacts : List (String × Bool) := %s\n", strings.ReplaceAll(strings.ReplaceAll(c11LeanPairs(hs), "\"true\"", "true"), "\"false\"", "false"))
 	fmt.Fprintf(w, "/-- walk.Generic: number of Enter / Visit / Exit call sites -/\n")
 	fmt.Fprintf(w, "def genericSites : Nat × Nat × Nat := (%d, %d, %d)\n", gs.enters, gs.visits, gs.exits)
 	fmt.Fprintf(w, "/-- extractor notes: anything it could not classify (must be empty for the checks to pass) -/\n")
